@@ -267,6 +267,43 @@ def run(ctx):
 
     _c17_6(ctx, repo)
     _c17_7(ctx, repo)
+    # ---- C17.8 every call-time override reaches the override dict the hash covers ---------------------------
+    # The hash covers `_task_options_override` only.  An options()/export_options() that filters its update (e.g. drops a key whose value equals
+    # the definition-time option) or returns `self` makes `t.options(memory=4).hash == t.hash` for @task(memory=4): a call-time override
+    # that does not change the hash, and a hash that depends on definition-time options.
+    tm8 = repo.mod(TASK)
+    r8 = ctx.rule("C17.8", "options()/export_options() merge the whole update into the overrides of a new task", floor=2)
+    for q in ("Task.options", "Task.export_options"):
+        fn8 = tm8.func(q)
+        kw8 = fn8.args.kwarg.arg if fn8.args.kwarg else None
+        if kw8 is None:
+            raise AnalysisError(f"{q} no longer takes **updates", q)
+        rebound = [n for n in ast.walk(fn8) if isinstance(n, (ast.Assign, ast.AugAssign, ast.AnnAssign)) and any(isinstance(t, ast.Name) and t.id == kw8 for t in assigned_targets(n))]
+        rebound += [n for n in ast.walk(fn8) if isinstance(n, ast.Call) and isinstance(n.func, ast.Attribute) and isinstance(n.func.value, ast.Name) and n.func.value.id == kw8 and n.func.attr in ("pop", "popitem", "clear")]
+        rebound += [n for n in ast.walk(fn8) if isinstance(n, ast.Delete) and any(isinstance(t, ast.Subscript) and src(t.value) == kw8 for t in n.targets)]
+        returns_self = [n for n in ast.walk(fn8) if isinstance(n, ast.Return) and n.value is not None and src(n.value) == "self"]
+        merged = False
+        for c in calls_in(fn8):
+            v = kwarg(c, "task_options_override")
+            if v is None:
+                continue
+            d = v
+            if isinstance(v, ast.Name):
+                defs = [a.value for a in ast.walk(fn8) if isinstance(a, ast.Assign) and any(isinstance(t, ast.Name) and t.id == v.id for t in a.targets)]
+                d = defs[-1] if defs else None
+            if isinstance(d, ast.Dict) and d.keys and d.keys[-1] is None and src(d.values[-1]) == kw8 and any(k is None and src(x) == "self._task_options_override" for k, x in zip(d.keys, d.values)):
+                merged = True
+        bad = rebound or returns_self or not merged
+        why = (f"the update `{kw8}` is rewritten before it is merged (line {rebound[0].lineno})" if rebound else "it can return `self`" if returns_self else "the new task's task_options_override is not {**self._task_options_override, **" + kw8 + "}")
+        r8.check(
+            not bad,
+            f"{tm8.rel}:{q}:update-reaches-overrides",
+            f"{q}: {why}: a call-time override equal to a definition-time option would leave the hash unchanged (t.options(memory=4).hash == t.hash for @task(memory=4)), and the hash "
+            "of t.options(k=v) would depend on definition-time options",
+            tm8.rel,
+            fn8.lineno,
+        )
+
 
 def _is_task_receiver(mod, fn, recv: str) -> bool:
     """Receiver is a Task object: annotated parameter, or assigned from a registry lookup / named *task*."""
